@@ -12,7 +12,7 @@ CHECKS = {
     'C01': (['FM94.tla', 'FM94Gen.tla', 'Tables.tla', 'Column.tla', 'Framing.tla', 'Wide.tla', 'Bits.tla'],
             'TLA+ spec FM94.tla (FM-94 template walker as a state machine, tables read as data) model-checked by TLC over a template '
             'catalogue plus grammar-derived WF templates per seed (vf/gen.py) x factors x bitmap bits x compression x subsets; every TLC behaviour (message octets assembled by Framing.tla) is '
-            'replayed into the real Decoder (results and the hook-recorded primitive calls: label, effective width / scale / reference); version-dependent templates alternately under three table versions through one Decoder; sample corpus parsed by the specification in consume form and compared, with hook-recorded bit cursors and parameters',
+            'replayed into the real Decoder (results and the hook-recorded primitive calls: label, effective width / scale / reference); every program that satisfies Scope.Scoped (flag carried by the behaviour) a second time through one compiling Decoder per worker; version-dependent templates alternately under three table versions through one Decoder; sample corpus parsed by the specification in consume form and compared, with hook-recorded bit cursors and parameters',
             'TLC enumerates every behaviour of the walker specification inside the stated bounds (invariants TypeOK, MissingIffAllOnes, '
             'LinksPointBack, CursorIsSumOfWidths, ...); each behaviour carries a complete message built without pybufrkit and the real '
             'decoder must return exactly the labels, scaled integers, strings and links of the specification; in the other direction the '
@@ -23,7 +23,7 @@ CHECKS = {
     'C02': (['FM94.tla', 'FM94Gen.tla', 'Column.tla', 'Framing.tla'],
             'TLA+ spec FM94.tla in produce form gives the canonical bits (catalogue + grammar-derived templates); TLC behaviours replayed into the real Encoder: uncompressed output '
             'byte-identical to the message assembled by Framing.tla, compressed output re-read by the specification (consume form, second TLC run); '
-            'encoder primitive calls compared through the hooks; cross-version pass through one Encoder; re-encoded corpus parsed by the specification',
+            'encoder primitive calls compared through the hooks; scoped programs also through one compiling Encoder per worker; cross-version pass through one Encoder; re-encoded corpus parsed by the specification',
             'Every TLC behaviour supplies values and the independently assembled message; the real encoder must reproduce it byte for byte when '
             'uncompressed; compressed output is validated by the specification reading it back (values reconstruct, all-ones difference iff '
             'missing, width 0 iff all subsets agree, zero padding).',
@@ -32,7 +32,7 @@ CHECKS = {
             'DESIGN.md section 3 C02'),
     'C03': (['Quant.tla', 'FM94.tla', 'Tables.tla'],
             'TLA+ spec Quant.tla (value<->raw relation over exact decimals, parameters from the table files) model-checked by TLC on all inputs '
-            'around the range ends, incl. compressed columns of off-grid inputs judged entry by entry (PointwiseColumn); every (case, input) replayed into the real Encoder/Decoder and judged by the relation; fixpoint E(render(D(b)))=b '
+            'around the range ends, incl. compressed columns of off-grid inputs judged entry by entry (PointwiseColumn); the range rule for every width 1..64 stated on bit lengths (WideFits: raw values around 2^n and around every octet multiple above the field); every (case, input) replayed into the real Encoder/Decoder and judged by the relation; fixpoint E(render(D(b)))=b '
             'on FM94 behaviours and double round trip on the corpus',
             'TLC checks the relation (half-unit bound, no wrap / clip, refusal when nothing fits, fixpoint on the grid) for every enumerated input and '
             'emits the permitted outcomes; the real encoder/decoder outcome for the same input must be one of them.',
@@ -42,7 +42,7 @@ CHECKS = {
     'C05': (['Column.tla', 'ColumnMC.tla', 'FM94.tla'],
             'TLA+ specs Column.tla/ColumnMC.tla: exhaustive TLC model of one compressed column (reader written separately from writer) over all '
             'columns <=4 subsets, widths <=3/4, every legal difference width; the same columns generated as messages by FM94.tla (all-contents mode) '
-            'and replayed into Decoder, Encoder (output re-read by the specification) and the uncompressed path',
+            'and replayed into Decoder, Encoder (output re-read by the specification) and the uncompressed path; columns of 52..64-bit fields by value classes (incl. 2^(w-2)+1) for every seed',
             'Exhaustive inside the stated bounds on the specification and on the implementation: every column and every legal width is decoded by '
             'the real decoder, the real encoder output is read by the independent reader, and the uncompressed form of the same subsets decodes to '
             'identical values, labels and links.',
@@ -92,14 +92,14 @@ CHECKS = {
     'C17': (['MdQuery.tla', 'Stream.tla', 'Framing.tla'],
             'TLA+ spec MdQuery.tla (expression parser + first-match/explicit-section lookup over section layouts read as data, cross-checked against Framing.tla) '
             'model-checked by TLC over all parameter names x index forms x prefixes x editions x section 2 x mode; every case replayed into MetadataQuerent on real '
-            'full / metadata-only decodes; Stream.tla runs in metadata-only mode with data damage; corpus messages with overwritten data sections',
+            'full / metadata-only decodes, and in both orders through one querent and one decoder per series of messages; Stream.tla runs in metadata-only mode with data damage; corpus messages with overwritten data sections',
             'Exhaustive over the bounded expression space on specification and implementation; metadata-only decoding shown independent of the data section.',
             'Trusted: TLC; MdQuery.tla; definitions/*.json as data for parameter names.',
             'DESIGN.md section 3 C17'),
     'C09': (['Wiring.tla', 'FM94Tree.tla', 'FM94.tla'],
             'TLA+ spec Wiring.tla (hierarchical view as a function of the walker output) with invariant TreeConserves model-checked by TLC on every catalogue behaviour; '
             'every behaviour replayed: four real renderings, three converters back to flat JSON, real nested JSON compared node by node with the specification tree, '
-            'four encodings compared with the specification octets, CLI encode in subprocesses; sample files through the consume form + Wiring',
+            'four encodings compared with the specification octets, CLI encode in subprocesses; templates incl. 221 spans over replications, sequences and operators; sample files through the consume form + Wiring',
             'TLC establishes conservation (every flat value exactly once, flat order recovered) on the specification for all explored structures; the implementation tree and '
             'all format conversions are compared with the specification for each of them.',
             'Trusted: TLC; Wiring.tla; the character-level layout of the text formats is exercised, not modelled.',
@@ -113,7 +113,7 @@ CHECKS = {
             'DESIGN.md section 3 C14'),
     'C16': (['Query.tla', 'Wiring.tla', 'FM94Tree.tla'],
             'TLA+ spec Query.tla (path evaluation with slices, replication envelopes, bare IDs, subset selectors) over Wiring.tla trees; TLC evaluates every path that exists in every '
-            'behaviour (depth 4/6) with every slice form at every position; each (message, subset, path) replayed into DataQuerent on interpreted and compiled decodes, compressed and uncompressed, per subset (@[s]) and over the whole message (every subset, reversed selector)',
+            'behaviour (depth 4/6) with every slice form (incl. bounds of different sign) at every position; each (message, subset, path) replayed into DataQuerent on interpreted and compiled decodes, compressed and uncompressed, per subset (@[s]) and over the whole message (every subset, reversed selector)',
             'The specification is the executable meaning of the path language; results are compared value by value (nested structure included) for every generated path.',
             'Trusted: TLC; Query.tla/Wiring.tla; paths are generated from the specification tree.',
             'DESIGN.md section 3 C16'),
@@ -129,10 +129,10 @@ CHECKS = {
             '(cache sizes 0,1,2,8), through compile -> JSON -> load -> execute, and request histories replayed on one coder object over a message pool sharing templates across table versions',
             'Structure-complete enumeration (factors, bitmap bits, compression, subsets) of every catalogued program and sampled Table D sequences on the specification; the compiled '
             'implementation must reproduce the specification for each; non-vacuity of the scope condition is measured.',
-            'Trusted: TLC; FM94.tla; Compiler.Scoped as the reading of "operators opened and closed within one replication scope". One recorded known finding (zero-length bitmap).',
+            'Trusted: TLC; FM94.tla; Compiler.Scoped as the reading of "operators opened and closed within one replication scope". ',
             'DESIGN.md section 3 C08'),
     'C10': (['Subset.tla', 'FM94.tla'],
-            'TLA+ spec Subset.tla (which subsets a request designates; refusal) model-checked by TLC over all requests of <=3/4 indices over -1..n; each request applied with '
+            'TLA+ spec Subset.tla (which subsets a request designates; refusal) model-checked by TLC over all requests of <=3/4 indices over -1..n, and for messages of 11 (17) subsets over requests drawn from indices around 0, 8, the middle and n; each request applied with '
             'BufrMessage.subset to real decodes of FM94-generated messages (compressed and not), re-encoded and decoded, compared with the specification subsets; CLI and corpus',
             'Exhaustive over the bounded request space; data content from FM94 behaviours.',
             'Trusted: TLC; Subset.tla; FM94.tla; all-ones = missing identification as the property states.',
@@ -146,14 +146,14 @@ CHECKS = {
             'DESIGN.md section 3 C13'),
     'C20': (['TableDef.tla', 'Tables.tla', 'FM94.tla'],
             'TLA+ spec TableDef.tla (NCEP definition messages written and read back by the specification; entries in force along a stream) model-checked by TLC; data messages generated by '
-            'FM94.tla under the extended tables (ExtraB/ExtraD) for two master table versions alternating in the stream; each stream scanned by generate_bufr_message in a fresh subprocess and compared',
+            'FM94.tla under the extended tables (ExtraB/ExtraD) for two master table versions alternating in the stream; definitions also BETWEEN data messages (the same template before and after a redefinition); each stream scanned by generate_bufr_message in a fresh subprocess - plain, through a filter that drops the definition messages, and with a compiling decoder - and compared',
             'Streams of 1..3 definition messages over a pool with overrides, code/character/negative-scale elements, sequences with replication and the NCEP replication-only form; '
             'all FM94 structure of the data templates.',
             'Trusted: TLC; TableDef.tla; Table B version 13 for the layout elements; NcepReplicationOnlySequence named deviation.',
             'DESIGN.md section 3 C20'),
     'C15': (['PathParser.tla', 'Trace_PathParser.tla'],
             'TLA+ spec PathParser.tla (documented grammar as recogniser + 9-state character automaton) model-checked by TLC over every '
-            'string up to length 5/6 over a 12-symbol alphabet; TLC-emitted verdicts replayed into NodePathParser; every string also through one shared parser object; recorded parser '
+            'string up to length 5/6 over a 12-symbol alphabet; TLC-emitted verdicts replayed into NodePathParser; every string also twice through one shared parser object; recorded parser '
             'outcomes for long expressions and mutations validated by TLC (Trace_PathParser.tla)',
             'TLC checks the automaton against the grammar on every string of the bounded space, and every such string is parsed by the '
             'real parser with verdict, exception type, slices, components and the print/parse round trip compared; beyond the bound, '
@@ -163,7 +163,7 @@ CHECKS = {
             'DESIGN.md section 3 C15'),
     'C19': (['BitStream.tla', 'Bits.tla'],
             'TLA+ spec BitStream.tla model-checked by TLC (exhaustive widths 1..64 x value classes x offsets 0..7 + -simulate); '
-            'every TLC behaviour replayed step by step into the real bit writer/reader',
+            'every TLC behaviour replayed step by step into the real bit writer/reader; refused writes and refused overwrites in place (2^n, -1, -2^(n-1)) are actions of the specification',
             'Exhaustive model checking of the writer/reader state machine inside the stated bounds, and every emitted '
             'behaviour (15k quick) is executed against bitops.py with position, octets and read results compared to the '
             'specification state after each action; long mixed sequences by simulation.',
